@@ -59,6 +59,9 @@ MISSED_FIRST = {"C02-1": "dict keys were always generated in mesh order", "C02-2
                 "C15-18": "constructor never got a flat per-cell value (shape n) together with a norm",
                 "C18-17": "rotator fields were always float",
                 "C18-18": "rotator mappings were always written in label order",
+                "C09-20": "check values were damaged by bit flips and by other numbers, never written in the byte order of the other OVF version (now a fault kind of its own, also in the sweep)",
+                "C10-20": "the unit pool of the HDF5 profile had no empty string (explicitly dimensionless)",
+                "C15-20": "a per-cell norm was always a fresh array, never a view of the field's own live array (one component, or the array of a scalar field itself)",
                 "C16-9": "upper corners were always computed as pmin + k*cell, never the float nearest to the decimal value a user types; corners of binary/XML files compared with a tolerance instead of exactly"}
 NOT_APPLICABLE = {}
 verify = {}
